@@ -4,13 +4,13 @@ import contextlib
 import copy
 import io
 
-from .. import coqbuild, irtools as T
+from .. import argtie, coqbuild, irtools as T
 from ..common import CORPUS_SEED, GLOBAL_TRUSTED_BASE
 from ..model import call_many
 from ..pool import guarded, run_cases
 
 THEOREMS = ["C02_defaults_alignment", "C02_function_roundtrip", "C02_default_stays_on_its_parameter", "C02_class_roundtrip",
-            "C02_alignment_example", "C02_class_text_roundtrip", "C02_class_docstring_canonical", "C02_class_text_example", "C02_function_text_parse_canonical", "C02_function_text_example", "C02_function_text_roundtrip"]
+            "C02_alignment_example", "C02_class_text_roundtrip", "C02_class_docstring_canonical", "C02_class_text_example", "C02_function_text_parse_canonical", "C02_function_text_example", "C02_function_text_roundtrip", "C02_argparse_written_default_is_kept", "C02_argparse_choices_in_order", "C02_argparse_optional_iff_not_required", "C02_argparse_int_choices_raise"]
 FORMATS = [("class", {}), ("pydantic", {}), ("function", {"type_annotations": True, "kwonly": True}),
            ("function", {"type_annotations": True, "kwonly": False}), ("function", {"type_annotations": False, "kwonly": True}),
            ("function", {"type_annotations": False, "kwonly": False}), ("argparse", {})]
@@ -346,12 +346,16 @@ def run(ctx):
     for cls, det, ir in items:
         ctx.item(cls, {"stage": "emit -> source -> parse on the implementation", "clause": cls.split("/", 3)[-1],
                        "input": T.jsonable(ir) if ir else None, "detail": det}, corpus_key=det.get("corpus_key") if isinstance(det, dict) else None)
+    # Model/ArgRead.v (C02_argparse_*) against parse_out_param on generated add_argument calls
+    n_arg, arg_bad = argtie.compare([argtie.gen(ctx.rng) for _ in range(400 if ctx.quick else 12000)])
+    cls_bad = list(cls_bad) + arg_bad[:3]
+    agg["argparse_calls"] = n_arg
     if not ctx.violations:
         if sig_bad:
             ctx.violation({"stage": "correspondence: Model/FuncSig.v parse_pairs vs cdd.function.parse.function", "detail": sig_bad[:3]},
                           no_input=True)
         elif cls_bad:
-            ctx.violation({"stage": "correspondence: Model/ClassFmt.v / Model/FuncFmt.v vs cdd.class_ / cdd.pydantic / cdd.function emit and parse",
+            ctx.violation({"stage": "correspondence: Model/ClassFmt.v / Model/FuncFmt.v / Model/ArgRead.v vs cdd.class_ / cdd.pydantic / cdd.function emit and parse / the argparse reader",
                            "detail": cls_bad[:3]}, no_input=True)
         elif not status["ok"]:
             ctx.violation({"stage": "proof", "theorem": status.get("failing_theorem"),
@@ -369,7 +373,7 @@ def run(ctx):
                 "signatures with 0..6 positional and 0..3 keyword-only parameters, self/cls, for the alignment model",
         "interfaces": agg["n"], "hops": agg["hops"], "hops_without_any_difference": agg["clean"],
         "signatures_compared_with_model": agg["sigs"], "signature_disagreements": len(sig_bad),
-        "classes_compared_with_model": agg["classes"], "class_disagreements": len(cls_bad),
+        "classes_compared_with_model": agg["classes"], "argparse_calls_compared_with_model": agg["argparse_calls"], "class_disagreements": len(cls_bad),
         "traces_validated_against_impl": agg["sigs"],
         "corpus_configurations_run": len(agg.get("corpus_keys", [])),
         "samples": [T.jsonable(work[-1][1]) if not isinstance(work[-1][1], tuple) else None, work[-1][1] if isinstance(work[-1][1], dict) else None],
